@@ -503,6 +503,7 @@ def r07_10(ctx: Ctx, rule: str = "R07.10") -> None:
 
 
 def run(ctx: Ctx) -> None:
+    shared.layout_agreement(ctx, "R07.11")
     r07_10(ctx)
     from . import c15
     c15.r15_1(ctx, rule="R07.9")  # a member registered in the header lists without a stream makes file and substream counts disagree
